@@ -94,7 +94,7 @@ def check_case(out: Outcome, case, tag):
             denote[k] = np.concatenate([denote[k], denote[op[2]]])
     raised = [s for s in impl if isinstance(s[1], str) and s[1].startswith('raised')]
     if raised:
-        out.fail('property', 'operation-raised', case, observed=raised[0][1], note=f'op {raised[0][0]}')
+        out.fail('property', 'query-describes-current-object' if 'QueryMismatch' in raised[0][1] else 'operation-raised', case, observed=raised[0][1], note=f'op {raised[0][0]}')
         return
     for k, tr in enumerate(trajs):
         if tr is None:
